@@ -18,7 +18,7 @@ import (
 // ---------------------------------------------------------------------------
 
 type c17Row struct {
-	Kind  int // 0 no TTL, 1 TTL 0, 2 short, 3 long, 4 extended (2 s, then +1 h right away), 5 long then re-set to short, 6 short then taken away again with a TTL of 0
+	Kind  int // 0 no TTL, 1 TTL 0, 2 short, 3 long, 4 extended (2 s, then +1 h right away), 5 long then re-set to short, 6 short then taken away again with a TTL of 0, 7 an hour, then shortened to a few milliseconds with a NEGATIVE Extend
 	TTLms int
 }
 
@@ -32,11 +32,11 @@ type c17Case struct {
 }
 
 func (c c17Case) String() string {
-	n := [7]int{}
+	n := [8]int{}
 	for _, r := range c.Rows {
 		n[r.Kind]++
 	}
-	return fmt.Sprintf("big=%v concExtend=%d vacuum=%dms rows{noTTL:%d ttl0:%d short:%d long:%d extended:%d reset-to-short:%d ttl-taken-away:%d} mode=%d busy=%v", c.Big, c.ConcExtend, c.IntervalMs, n[0], n[1], n[2], n[3], n[4], n[5], n[6], c.Mode, c.Busy)
+	return fmt.Sprintf("big=%v concExtend=%d vacuum=%dms rows{noTTL:%d ttl0:%d short:%d long:%d extended:%d reset-to-short:%d ttl-taken-away:%d shortened-by-negative-extend:%d} mode=%d busy=%v", c.Big, c.ConcExtend, c.IntervalMs, n[0], n[1], n[2], n[3], n[4], n[5], n[6], n[7], c.Mode, c.Busy)
 }
 
 type c17Tracked struct {
@@ -184,7 +184,7 @@ func runC17Case(cs c17Case) (nontrivial bool, err error) {
 				// 400 ms: long enough that the next call (which takes it away) cannot come too late even
 				// on a busy machine, short enough that a lost "take away" shows before the case ends
 				until = row.SetTTL(400 * time.Millisecond)
-			case 3, 5:
+			case 3, 5, 7:
 				until = row.SetTTL(time.Hour + time.Duration(r.TTLms)*time.Millisecond)
 			case 4:
 				until = row.SetTTL(2 * time.Second)
@@ -214,6 +214,13 @@ func runC17Case(cs c17Case) (nontrivial bool, err error) {
 			if want := time.Until(until); !ok || left > want+2*time.Second || left < want-2*time.Second {
 				return false, fmt.Errorf("row id=%d: Row.TTL() = %s,%v; the deadline is %s away", id, left, ok, want)
 			}
+		}
+		if r.Kind == 7 {
+			// extending by a negative duration moves the deadline closer
+			c.Query(func(txn *column.Txn) error {
+				return txn.QueryAt(off, func(column.Row) error { txn.TTL().Extend(-time.Hour); return nil })
+			})
+			until = until.Add(-time.Hour)
 		}
 		if r.Kind == 6 {
 			// a time-to-live of zero takes the deadline away again (Row.SetTTL or the transaction's TTL accessor)
@@ -462,7 +469,7 @@ func TestC17(t *testing.T) {
 			}
 			n := rapid.IntRange(2, 12).Draw(t, "nrows")
 			for j := 0; j < n; j++ {
-				cs.Rows = append(cs.Rows, c17Row{Kind: rapid.IntRange(0, 6).Draw(t, "kind"), TTLms: rapid.IntRange(10, 60).Draw(t, "ttl")})
+				cs.Rows = append(cs.Rows, c17Row{Kind: rapid.IntRange(0, 7).Draw(t, "kind"), TTLms: rapid.IntRange(10, 60).Draw(t, "ttl")})
 			}
 			cases[i] = cs
 		}
